@@ -380,6 +380,50 @@ func c09Stale(r *mc.Run, w *enga.World, path []enga.ABlock) {
 	}
 }
 
+// c09Blob presents payloads that are perfect children of the head except for their blob-gas
+// fields (the block hash is recomputed, the engine answers VALID). Whatever ProcessProposal
+// says, a payload with blob gas must not become the head: its message fails when finalised.
+func c09Blob(r *mc.Run, w *enga.World, path []enga.ABlock) {
+	type bv struct {
+		name         string
+		used, excess uint64
+	}
+	for _, v := range []bv{{"used-1", 1, 0}, {"used-131072", 131072, 0}, {"used-131072-excess-131072", 131072, 131072},
+		{"used-max", ^uint64(0), 0}, {"used+excess-wrap-to-0", ^uint64(0) - 131071, 131072}, {"used-2^63-excess-2^63", 1 << 63, 1 << 63}, {"used-max-excess-1", ^uint64(0), 1}} {
+		x, err := w.Fork()
+		must(err)
+		viol := func(cls, msg string) {
+			r.Violate(mc.Violation{Class: cls + ":" + v.name, Msg: fmt.Sprintf("%s | blob gas used=%d excess=%d | history %v", msg, v.used, v.excess, aPath(path)), Detail: engaDetail{Path: path, Note: "blob payload " + v.name}}, nil)
+		}
+		pre := x.Head()
+		blk := &sim.Block{TimeDelta: time.Second}
+		tx, _, err := x.N.BuildEthBlockTx(sim.EthBlockOpts{Rehash: true, MutatePayload: func(p *goatmodtypes.ExecutionPayload) { p.BlobGasUsed, p.ExcessBlobGas = v.used, v.excess }})
+		must(err)
+		pr, perr := x.N.Process(blk, [][]byte{tx})
+		r.Transitions.Add(1)
+		r.Validated.Add(1)
+		if perr == nil && pr.Status == abci.ResponseProcessProposal_ACCEPT {
+			r.Outcome("blob-payload-passes-proposal-check")
+		} else {
+			r.Outcome("blob-payload-rejected-as-proposal")
+		}
+		fr, ferr := x.N.Finalize(blk, [][]byte{tx})
+		if ferr == nil {
+			if fr.TxResults[0].Code == 0 {
+				viol("execution-block-message-with-blob-gas-succeeds", "code 0")
+			}
+			must(x.N.Commit(blk, [][]byte{tx}, fr))
+			post := x.Head()
+			if !bytes.Equal(post.Block.BlockHash, pre.Block.BlockHash) {
+				viol("head-moved-to-payload-with-blob-gas", fmt.Sprintf("head %x -> %x", pre.Block.BlockHash, post.Block.BlockHash))
+			}
+		} else {
+			r.Outcome("blob-payload-aborts-block")
+		}
+		x.Close()
+	}
+}
+
 func runC09(r *mc.Run) {
 	depth, faultDepth := 3, 1
 	if r.Thorough() {
@@ -390,7 +434,7 @@ func runC09(r *mc.Run) {
 	}
 	r.Bounds["depth_blocks"] = depth
 	r.Bounds["fault_enumeration_history_depth"] = faultDepth
-	r.Rule = "tree search over block histories of the real application (real PrepareProposal/ProcessProposal/FinalizeBlock/Commit, fake execution layer over IPC) with the head monitor on every finalised block; at every node up to the fault depth, for every menu block, every placement of one engine fault (error, INVALID, SYNCING, ACCEPTED, missing payload id, stall past the 1.2 s deadline) on each of the 5 engine calls; at every node one level deeper, stale proposals put to the same application instance that verified them (the committed payload again; a sibling accepted in another round but not decided, verified before / after the decided one): rejected, message fails when finalised anyway, head and beacon root unmoved; aborted blocks are retried (after a restart when FinalizeBlock failed) and compared with a fault-free replica"
+	r.Rule = "tree search over block histories of the real application (real PrepareProposal/ProcessProposal/FinalizeBlock/Commit, fake execution layer over IPC) with the head monitor on every finalised block; at every node up to the fault depth, for every menu block, every placement of one engine fault (error, INVALID, SYNCING, ACCEPTED, missing payload id, stall past the 1.2 s deadline) on each of the 5 engine calls; at every node one level deeper, stale proposals put to the same application instance that verified them (the committed payload again; a sibling accepted in another round but not decided, verified before / after the decided one): rejected, message fails when finalised anyway, head and beacon root unmoved; and 7 payloads that differ from a perfect child only in their blob-gas fields (incl. pairs whose 64-bit sum wraps to zero): message fails, head unmoved; aborted blocks are retried (after a restart when FinalizeBlock failed) and compared with a fault-free replica"
 	r.Assumptions = []string{"single validator = proposer of every block", "ELSim defines the well-behaved engine", "pairs of faults are explored from the initial state in the thorough tier only"}
 	var explore func(r *mc.Run, only []enga.ABlock)
 	explore = func(r *mc.Run, only []enga.ABlock) {
@@ -432,6 +476,7 @@ func runC09(r *mc.Run) {
 				}
 				if len(path) <= faultDepth+1 {
 					c09Stale(r, child, path)
+					c09Blob(r, child, path)
 				}
 				return true
 			},
@@ -439,6 +484,7 @@ func runC09(r *mc.Run) {
 		// faults from the initial state too
 		if only == nil {
 			c09Stale(r, root, nil)
+			c09Blob(r, root, nil)
 		}
 		for _, fb := range faultBlocks {
 			if only != nil {
